@@ -6,6 +6,7 @@ import Deb822Verif.Driver.Total
 import Deb822Verif.Driver.Codec
 import Deb822Verif.Driver.Sat
 import Deb822Verif.Driver.RelWrap
+import Deb822Verif.Driver.RelEdit
 import Deb822Verif.Driver.Derive
 import Deb822Verif.Driver.Typed
 import Deb822Verif.Driver.TypedDoc
@@ -19,6 +20,7 @@ def dispatch (op : String) (args : List String) : String :=
     <|> (Driver.Codec.handle op args)
     <|> (Driver.Sat.handle op args)
     <|> (Driver.RelWrap.handle op args)
+    <|> (Driver.RelEdit.handle op args)
     <|> (Driver.Derive.handle op args)
     <|> (Driver.Typed.handle op args)
     <|> (Driver.TypedDoc.handle op args)
